@@ -29,7 +29,7 @@ KNOWN_FINDINGS = os.path.join(VERIF, 'known_findings.json')
 BASE_TRUSTED = [
   'Lean 4.33.0 kernel (thorough tier: re-checked by leanchecker)',
   'axioms: subset of {propext, Classical.choice, Quot.sound}, audited with #print axioms on every run; no sorry/admit/native_decide/bv_decide/own axioms (source scan on every run)',
-  'hand-written Lean model (modelled, not verified); tied to /repo only by this run\'s correspondence check (differential execution, bounded by its generators)',
+  'hand-written Lean model (modelled, not verified); tied to /repo by this run\'s correspondence check (differential execution, bounded by its generators) and, where the check names a translator below, additionally by definitions regenerated from /repo\'s source on this run and proved equal to the model',
   'harness glue: S-expression protocol, canonicalisation of Python results, CPython 3.12',
 ]
 
